@@ -350,6 +350,21 @@ def run(run: core.Run) -> int:
     cases.append({"threads": [[{"kind": "decompile", "rs": c11.rs_abort(8, 2)}] * 2, [{"kind": "decompile", "rs": c11.rs_switch(8, 0)}] * 2], "mode": "sched", "seed": 7,
                   "p_switch": 0.05, "warm": False, "antlr": False, "budget_s": 150, "instrument": False, "flavour": "witness"})
 
+    # threads that are all inside loop bodies (with a break_loop) at the same time: what one decompilation knows about its open
+    # loops is its own
+    for sd in (3, 11, 29, 57):
+        cases.append({"threads": [[{"kind": "decompile", "rs": c11.rs_loops(4, "x")}] * 2, [{"kind": "decompile", "rs": c11.rs_loops(5, "y")}] * 2,
+                                  [{"kind": "decompile", "rs": c11.rs_loops(3, "z")}] * 2], "mode": "sched", "seed": sd,
+                      "p_switch": 0.3 if sd % 2 else 0.1, "warm": False, "antlr": False, "budget_s": 150, "instrument": False, "flavour": "loops",
+                      # yield points in the loop / block / if writers only: the threads meet inside loop bodies
+                      "trace_only": ["forever_start.py", "forever_break.py", "forever_continue.py", "block.py", "if_start.py", "label.py"]})
+
+    # references of the calls of the fixed scenarios above (each alone in a fresh process)
+    need2 = {c11.spec_key(c): c for cs in cases for t in cs["threads"] for c in t if c11.spec_key(c) not in refs}
+    nk2 = list(need2)
+    for k, x in zip(nk2, fresh.run_fresh_many([(c11.SESSION, {"calls": [c11.alone(need2[k])]}) for k in nk2], jobs, timeout=120)):
+        refs[k] = x["results"][0] if not fresh.failed(x) and "results" in x else {"no_answer": True}
+
     def strip(c: dict) -> dict:
         return {k: v for k, v in c.items() if k != "flavour"}
     outs = fresh.run_fresh_many([(THREADS, strip(c)) for c in cases], max(2, jobs // 2), timeout=200)
